@@ -19,6 +19,9 @@ def jobs(tier):
         # multi-element molecules on 3 atoms (the final sort by neighbour atomic numbers moves atoms): a subset of the respelling kinds
         for j in shape_strata(M, "c11", tier, quick=[dict(name="S-elem4", ns=[3], pin={3: 3}, params=dict(K_m=1, K_r=0, alphabet=SIGMA_T4, kinds=["identity", "tuples-reversed", "renumber-in-block"]))], max_seconds=ms):
             js.append(j)
+    # two radical labels on 4 atoms (neighbours that differ only in their radical state), a subset of the respelling kinds
+    r4 = [dict(name="S-shape/two-radicals", ns=[4], pin={4: 4}, params=dict(K_m=0, K_r=2, kinds=["tuples-reversed", "renumber-in-block", "endpoints-all"]))]
+    js += shape_strata(M, "c11", tier, quick=r4, thorough=r4, max_seconds=ms)
     cur = ["C6-ring", "K33", "chain-11"] + (["prism", "cubane", "2xC3", "path-P8"] if t else [])
     for name in cur:
         n, bonds = CURATED[name]
